@@ -1,8 +1,86 @@
-//! Field-path resolution observed directly (C10) and recorded find calls (C16).
+//! Field-path resolution observed directly (C10): Object::find / Document::find on every
+//! representation, the returned value converted back to the tagged-tree form.
+use crate::docs::*;
+use crate::enc::*;
 use crate::run::*;
-use serde_json::Value as J;
+use serde_json::{json, Value as J};
+use tau_engine::{Document, Value};
 
+pub fn val_to_j(v: &Value, depth: usize) -> J {
+    if depth > 40 {
+        return json!({"t":"S","s":cps("<too deep>")});
+    }
+    match v {
+        Value::Null => json!({"t":"N"}),
+        Value::Bool(b) => json!({"t":"B","b":b}),
+        Value::Int(i) => {
+            let n = int_node(&i.to_string());
+            json!({"t":"I","neg":n["neg"],"d":n["d"]})
+        }
+        Value::UInt(u) => json!({"t":"I","neg":false,"d":digits(&u.to_string())}),
+        Value::Float(f) => {
+            // only finite short values appear in the C10 universes
+            let t = format!("{:?}", f);
+            if t.contains('e') || t.contains("inf") || t.contains("NaN") {
+                json!({"t":"F","neg":false,"d":[],"fr":[],"sp":"nan"})
+            } else {
+                let n = flt_node(&t);
+                json!({"t":"F","neg":n["neg"],"d":n["d"],"fr":n["fr"],"sp":""})
+            }
+        }
+        Value::String(s) => json!({"t":"S","s":cps(s)}),
+        Value::Array(a) => json!({"t":"A","vs":a.iter().map(|x| val_to_j(&x, depth + 1)).collect::<Vec<_>>()}),
+        Value::Object(o) => {
+            let mut keys: Vec<String> = o.keys().iter().map(|k| k.to_string()).collect();
+            keys.sort();
+            let kv: Vec<J> = keys
+                .iter()
+                .filter_map(|k| o.get(k).map(|v| json!([cps(k), val_to_j(&v, depth + 1)])))
+                .collect();
+            json!({"t":"O","kv":kv})
+        }
+    }
+}
+
+fn find_on(doc: &dyn Document, key: &str) -> J {
+    match guarded(|| doc.find(key).map(|v| val_to_j(&v, 0))) {
+        Ok(Some(v)) => json!({"out":"some","v":v}),
+        Ok(None) => json!({"out":"none","v":{"t":"none"}}),
+        Err(()) => json!({"out":"panic","v":{"t":"none"}}),
+    }
+}
+
+/// {"run":"find","doc":DOC,"keys":[cps..]}
 pub fn run_find(case: &J, out: &mut Out) {
-    out.ev(serde_json::json!({"ev":"case","c":case}));
-    out.ev(serde_json::json!({"ev":"skip","why":crate::enc::cps("not implemented")}));
+    out.ev(json!({"ev":"case","c":case}));
+    let d = &case["doc"];
+    let keys: Vec<String> = case["keys"]
+        .as_array()
+        .map(|a| a.iter().filter_map(|k| str_of(k).ok()).collect())
+        .unwrap_or_default();
+    let yaml = match doc_yaml(d) {
+        Ok(serde_yaml::Value::Mapping(m)) => m,
+        _ => {
+            out.ev(json!({"ev":"skip","why":cps("root is not a mapping")}));
+            return;
+        }
+    };
+    let json_v = doc_json(d).ok();
+    let hm = std_root(d, 0).ok();
+    let own = own_root(d, false).ok();
+    for (i, k) in keys.iter().enumerate() {
+        let mut emit = |repr: &str, r: J| {
+            out.ev(json!({"ev":"found","k":i,"repr":repr,"out":r["out"],"v":r["v"]}));
+        };
+        emit("yaml", find_on(&yaml, k));
+        if let Some(j) = &json_v {
+            emit("json", find_on(j, k));
+        }
+        if let Some(h) = &hm {
+            emit("hm", find_on(h, k));
+        }
+        if let Some(o) = &own {
+            emit("own", find_on(o, k));
+        }
+    }
 }
